@@ -110,6 +110,15 @@ func (s *Session) Sync(rep *Report, checkList bool) bool {
 	if !ok {
 		rep.Hang = dump
 		rep.HangLog = append([]string{}, s.Tail(30)...)
+		// what arrived on Errors before the stall is an observation, not a timing verdict
+		_, _, errs := s.Take()
+		for i, e := range errs {
+			if i == 5 {
+				break
+			}
+			rep.Errors = append(rep.Errors, e.Error())
+			rep.ErrLog = append(rep.ErrLog, append([]string{}, s.Tail(12)...))
+		}
 		return false
 	}
 	want, got, errs := s.Take()
